@@ -197,10 +197,10 @@ class NXPLL(LiteXModule):
                     return config
         raise ValueError("No PLL config found")
 
-    def calculate_analog_parameters(self, clki_freq, fb_div, bw_factor = 5):
+    def calculate_analog_parameters(self, clki_freq, fb_div, bw_factor = 5, clki_div = 1):
         config = {}
 
-        params = self.calc_optimal_params(clki_freq, fb_div, 1, bw_factor)
+        params = self.calc_optimal_params(clki_freq, fb_div, clki_div, bw_factor)
         config["p_CSET"]            = params["CSET"]
         config["p_CRIPPLE"]         = params["CRIPPLE"]
         config["p_V2I_PP_RES"]      = params["V2I_PP_RES"]
@@ -226,7 +226,7 @@ class NXPLL(LiteXModule):
             p_PLLPD_N           = "USED",
             p_PLLRESET_ENA      = "ENABLED",
             p_REF_INTEGER_MODE  = "ENABLED", # Ref manual has a discrepency so lets always set this value just in case
-            p_REF_MMD_DIG       = "1", # Divider for the input clock, ie 'M'
+            p_REF_MMD_DIG       = str(config["clki_div"]), # Divider for the input clock, ie 'M'
 
             i_PLLRESET          = self.reset,
             i_REFCK             = self.clkin,
@@ -247,7 +247,7 @@ class NXPLL(LiteXModule):
             p_FBK_MMD_DIG       = "1",
         )
 
-        analog_params = self.calculate_analog_parameters(self.clkin_freq, config["clkfb_div"])
+        analog_params = self.calculate_analog_parameters(self.clkin_freq, config["clkfb_div"], clki_div=config["clki_div"])
         self.params.update(analog_params)
         n_to_l = {0: "P", 1: "S", 2: "S2", 3:"S3", 4:"S4"}
 
